@@ -75,7 +75,7 @@ def _gate_op(r, n, prefix=''):
     if n >= 2:
         kinds += [('cnot', 3), ('cz', 1), ('swap', 1), ('u2', 2), ('cu', 2)]
     if n >= 3:
-        kinds += [('toffoli', 2)]
+        kinds += [('toffoli', 2), ('cu2', 2)]
     g = srng.weighted(r, kinds)
     o = {'op': prefix + 'gate', 'g': g}
     if g in ('H', 'X', 'Z', 'S', 'T', 'u1', 'rx'):
@@ -85,9 +85,12 @@ def _gate_op(r, n, prefix=''):
     elif g == 'cu':
         k = r.randint(1, min(2, n - 1))
         o['q'] = r.sample(range(n), k + 1)  # first k are controls, last is the target
+    elif g == 'cu2':
+        k = r.randint(1, min(2, n - 2))
+        o['q'] = r.sample(range(n), k + 2)  # first k are controls, last two are the (ordered) targets
     else:
         o['q'] = r.sample(range(n), 3)
-    if g in ('u1', 'u2', 'cu'):
+    if g in ('u1', 'u2', 'cu', 'cu2'):
         o['seed'] = r.getrandbits(32)
     if g == 'rx':
         o['theta'] = round(r.uniform(-4, 4), 6)
@@ -299,6 +302,8 @@ def gate_spec(o):
         return 'control', born.G['X'], q[:2], q[2:]
     if g == 'cu':
         return 'control', _unitary(o['seed'], 1), q[:-1], q[-1:]
+    if g == 'cu2':
+        return 'control', _unitary(o['seed'], 2), q[:-2], q[-2:]
     raise ValueError(g)
 
 
@@ -628,6 +633,8 @@ class Sim:
                     c.double_qubit_gate(U, q[0], q[1])
                 elif g == 'cu':
                     c.controlled_single_qubit_gate(U, set(ctrl), tgt[0])
+                elif g == 'cu2':
+                    c.controlled_double_qubit_gate(U, set(ctrl), tuple(tgt))
             except Exception as e:
                 raise Violation('unexpected_exception', f'Circuit.{g}', f'{type(e).__name__}: {e}')
             self.desc.append(('gate', spec))
@@ -759,6 +766,12 @@ class Sim:
         if not any(x[0] in ('gate', 'measure') for x in self.desc):
             return
         w = self.width()
+        try:
+            nq_sut = c.num_qubit
+        except Exception as e:
+            raise Violation('unexpected_exception', 'Circuit.num_qubit', f'{type(e).__name__}: {e}')
+        if nq_sut != w:
+            raise Violation('bookkeeping', 'Circuit.num_qubit', f'Circuit.num_qubit={nq_sut} but the gates and measure gates of the circuit reach qubit {w - 1}: a register of num_qubit qubits cannot hold the measured qubits')
         w = max([w] + [x[4].index[0] + 1 for x in self.desc if x[0] == 'cc'])
         w = max(w, min(6, int(op.get('reg', 0))))  # a circuit may act on the low qubits of a wider register (same register size across shifts)
         # circuits always get a complex128 input: numqi's apply_control_n_gate writes into a copy of the input and silently drops the
